@@ -7,10 +7,12 @@ model (compute_energy_density, jax.grad of it, compute_state_new, compute_materi
 execution mode, abstracts every observation (alpha, constants below) to ints / strings / booleans and has
 MaterialPointTrace.tla judge the clauses.  Nothing in here decides a clause: Python only rounds.
 
-Execution modes: "single" = plain un-jitted call on one point (model built from Python floats, as in the
-upstream tests), "jit" = jax.jit of one point with the material parameters as traced arguments,
-"vmapBatch" = jax.jit(jax.vmap(.)) over a batch of 4 points in which the point of interest sits at a
-seeded position among unrelated deformations.
+Execution modes: "single" = one point, model built from Python floats and each model function wrapped in its own
+jax.jit (exactly how the upstream tests call a model; one compilation per parameter set, so only a few histories),
+"jit" = jax.jit of one point with the material parameters as traced arguments (one compilation serves all seeds),
+"vmapBatch" = jax.jit(jax.vmap(.)) over a batch of 4 points in which the point of interest sits at a seeded position
+among unrelated deformations.  (Plain op-by-op calls re-trace every lax.cond of the eigen-solver: 5-20 s per call,
+not used.)
 """
 import contextlib
 import io
@@ -30,9 +32,9 @@ ALPHA = dict(
     rest_energy_rel=1e-12,      # |W(rest)| <= rest_energy_rel * Emod
     rest_stress_rel=1e-9,       # ||P(rest)|| <= rest_stress_rel * Emod
     energy_rel=1e-9,            # energies equal: |dW| <= energy_rel*max|W| + energy_abs*Kref
-    energy_abs=1e-12,           #   (Kref = largest modulus; rounding of J, I1 at O(1) entries is eps*Kref)
-    stress_sym_rel=1e-8,        # ||tau - tau^T|| <= stress_sym_rel*||tau|| + stress_abs*Kref
-    stress_abs=1e-11,
+    energy_abs=1e-13,           #   (Kref = largest modulus; rounding of J, I1 at O(1) entries is eps*Kref)
+    stress_sym_rel=1e-9,        # ||tau - tau^T|| <= stress_sym_rel*||tau|| + stress_abs*Kref
+    stress_abs=1e-12,
     stress_eq_rel=1e-8,         # stresses equal (before/after commit): ||dP|| <= rel*max||P|| + 10*tol*Y0
     det_abs=1e-10,              # |det Fp - 1|, |det Fv - 1|, |tr eps_p|
     yield_factor=10.0,          # yield excess <= yield_factor * solver_tol * Y0
@@ -41,7 +43,7 @@ ALPHA = dict(
     relax_rel=1e-12,            # Wneq' <= Wneq*(1+relax_rel) + relax floor (rounding of the log strain)
     relax_floor=1e-14,          #   floor = Gsum*(relax_floor*sqrt(Wneq/Gsum) + 1e-28)
     diss_rel=1e-14,             # dissipation >= -diss_rel*scale
-    limit_rel=1e-4,             # |W(dt) - W_limit| <= limit_rel*W_inst + energy_abs*Kref at dt = 1e-/+6 tau
+    limit_rel=1e-4,             # |W(dt) - W_limit| <= limit_rel*(W_inst - W_eq) + rounding at dt = 1e-/+6 tau
     batch=4,
 )
 SOLVER_TOL_DEFAULT = 1e-10
@@ -428,25 +430,49 @@ class Runner:
         else:
             self._fn = None
 
+    def _single(self, p, H, s, dt):
+        """The way the upstream tests use a model on one point: built from Python floats, each function wrapped in
+        jax.jit on its own (constants folded by XLA; one compilation per parameter set)."""
+        jax, jnp = self.jax, self.jnp
+        key = tuple(float(x) for x in p)
+        if getattr(self, "_single_key", None) != key:
+            mdl = self.m["build"](list(key))
+            if self.m["sig"] == "pf":
+                z3 = jnp.zeros(3)
+                energy = lambda h, st, t: mdl.compute_energy_density(h, 0.0, z3, st, t)
+                snew = lambda h, st, t: mdl.compute_state_new(h, 0.0, z3, st, t)
+                qoi = None
+            else:
+                energy, snew = mdl.compute_energy_density, mdl.compute_state_new
+                qoi = mdl.compute_material_qoi if callable(mdl.compute_material_qoi) else None
+            f = dict(W=jax.jit(energy), P=jax.jit(jax.grad(energy, 0)), sn=jax.jit(snew))
+            if self.kind == "plastic":
+                f["G"] = jax.jit(jax.grad(energy, 1))
+            if self.kind == "viscous" and qoi is not None:
+                f["q"] = jax.jit(qoi)
+            self._single_key, self._single_f = key, f
+        H, s = onp.asarray(H, dtype=float), onp.asarray(s, dtype=float)
+        return {k: onp.asarray(fn(H, s, float(dt))) for k, fn in self._single_f.items()}
+
     def initial_state(self, p):
-        mdl = self.m["build"](p)
-        s = onp.asarray(mdl.compute_initial_state(), dtype=float).reshape(-1)
-        return s
+        if getattr(self, "_s0", None) is None:          # does not depend on the material constants
+            mdl = self.m["build"](p)
+            self._s0 = onp.asarray(mdl.compute_initial_state(), dtype=float).reshape(-1)
+        return self._s0.copy()
 
     def __call__(self, p, H, s, dt, rng=None, others=None):
         jnp = self.jnp
         self.calls += 1
         if self.mode == "single":
-            out = self._obs([float(x) for x in p], jnp.asarray(H), jnp.asarray(s), float(dt))
-            return {k: onp.asarray(v) for k, v in out.items()}
+            return self._single(p, H, s, dt)
         if self.mode == "jit":
-            out = self._fn(jnp.asarray(p), jnp.asarray(H), jnp.asarray(s), float(dt))
+            out = self._fn(onp.asarray(p, dtype=float), onp.asarray(H, dtype=float), onp.asarray(s, dtype=float), float(dt))
             return {k: onp.asarray(v) for k, v in out.items()}
         B = ALPHA["batch"]
         k = rng.randrange(B)
         Hs = [onp.asarray(o) for o in others[:B - 1]]
         Hs.insert(k, onp.asarray(H))
-        out = self._fn(jnp.asarray(p), jnp.asarray(onp.stack(Hs)), jnp.asarray(onp.stack([s] * B)), float(dt))
+        out = self._fn(onp.asarray(p, dtype=float), onp.stack(Hs), onp.stack([onp.asarray(s, dtype=float)] * B), float(dt))
         return {kk: onp.asarray(v)[k] for kk, v in out.items()}
 
 
@@ -489,9 +515,12 @@ class Point:
 
     # -- helpers
     def _track(self, key, val):
+        """largest fraction of an allowance used by an evaluation that is within it (margin of the tolerances)"""
         mr = self.stats["max_rel"]
-        if math.isfinite(val) and val > mr.get(key, 0.0):
-            mr[key] = val
+        if key in ("energy", "sym_stress") and os.environ.get("MP_CALIB"):
+            key = key + ":" + self.m["model"] + ":" + self.r.mode
+        if math.isfinite(val) and val <= (1e9 if os.environ.get("MP_CALIB") else 1.0) and val > mr.get(key, 0.0):
+            mr[key] = float(val)
 
     def _others(self):
         out = []
@@ -521,6 +550,8 @@ class Point:
         lo, hi = DT_CLASS[cls]
         ref = self.rng.choice([self.tau_min, self.tau_max])
         return ref * 10.0 ** self.rng.uniform(lo, hi)
+
+    _deform_only = False
 
     def _new_F(self, cls):
         """Deformation for Deform/Load: elastic models jump to a fresh F of the class; history models compose an
@@ -552,6 +583,8 @@ class Point:
                 dF = make_def(geo, rng, rot=fin and cls != "tiny")(min(mag, 0.4))
         else:
             mag = 10.0 ** (rng.uniform(-9, -6) if cls == "tiny" else rng.uniform(-5, -0.3))
+            if self._deform_only:                 # Deform (no time step) serves the limit / rotation clauses
+                mag = 10.0 ** rng.uniform(-3, -0.3)
             if cls == "reverse" and self.dF_last is not None:
                 dF = onp.linalg.matrix_power(onp.linalg.inv(self.dF_last), rng.choice([1, 2]))
             else:
@@ -595,14 +628,14 @@ class Point:
         return g(self.rng.choice([lo, hi]))
 
     # -- alpha on energy / stress registers
-    def _energy_id(self, W, reset=False):
+    def _energy_id(self, W, reset=False, judged=False):
         W = float(W)
         if reset:
             ok = math.isfinite(W) and abs(W) <= ALPHA["rest_energy_rel"] * self.meta["Emod"]
             self.wid = 0 if ok else self._fresh()
         else:
             ab = ALPHA["energy_abs"] * self.meta["Kref"]
-            if math.isfinite(W) and math.isfinite(self.wreg):
+            if judged and math.isfinite(W) and math.isfinite(self.wreg):
                 self._track("energy", abs(W - self.wreg) / (ALPHA["energy_rel"] * max(abs(W), abs(self.wreg)) + ab))
             if not _close(W, self.wreg, ALPHA["energy_rel"], ab):
                 self.wid = self._fresh()
@@ -640,9 +673,9 @@ class Point:
             self._track("sym_stress", a / allow)
         return bool(math.isfinite(a) and a <= allow)
 
-    def _observe(self, o, reset=False, commit=False, r=None, state=None):
+    def _observe(self, o, reset=False, commit=False, r=None, state=None, judged=False):
         r = r if r is not None else self.call(self.sc if state is None else state)
-        o["W"] = self._energy_id(r["W"], reset)
+        o["W"] = self._energy_id(r["W"], reset, judged or commit)
         o["S"] = self._stress_id(r["P"], reset, commit)
         o["symS"] = self._sym(r["P"], self.F)
         return r
@@ -736,13 +769,15 @@ class Point:
         weq = visco_weq(self.F, self.meta)
         winst = weq + self.meta["Gsum"] * float(onp.tensordot(E, E))
         target = winst if fast else weq
-        ab = ALPHA["energy_abs"] * self.meta["Kref"]
+        # the backward-Euler factor is 1e-6 away from its limit, so W is within ~2e-6*(W_inst - W_eq) of the target;
+        # rounding of the energies themselves: energy_rel*W_inst + energy_abs*Kref
+        rounding = ALPHA["energy_rel"] * abs(winst) + ALPHA["energy_abs"] * self.meta["Kref"]
+        allow = ALPHA["limit_rel"] * abs(winst - weq) + rounding
         d = abs(float(r["W"]) - target)
-        allow = ALPHA["limit_rel"] * abs(winst) + ab
         o["lim"] = "EQ" if (math.isfinite(d) and d <= allow) else "NE"
         if math.isfinite(d):
             self._track("limit", d / allow)
-        if abs(winst - weq) > 100 * allow:
+        if ALPHA["limit_rel"] * abs(winst - weq) > 10 * rounding:
             self.stats["limits_nontrivial"] += 1
 
     # -- the actions
@@ -757,7 +792,9 @@ class Point:
             if kind == "viscous":
                 self.nreg = visco_wneq(self.F, self.sc, self.meta)
         elif a == "Deform":
+            self._deform_only = True
             self.F = self._new_F(op["c"])
+            self._deform_only = False
             self.sp = None
             self._observe(o)
             if kind == "viscous":
@@ -772,7 +809,7 @@ class Point:
             else:
                 self.F = self.F @ Q
                 self.sc = self._rotate_state(self.sc, Q)
-            self._observe(o)
+            self._observe(o, judged=True)
             if abs(w_before) > 1e3 * ALPHA["energy_abs"] * self.meta["Kref"]:
                 self.stats["rot_nontrivial"] += 1
         elif a == "Update":
@@ -920,7 +957,7 @@ def run_jobs(jobs, nproc=None):
     """Run jobs in worker processes (compilation of each model/mode happens once, in parallel)."""
     if not jobs:
         return []
-    nproc = nproc or min(len(jobs), max(1, min(14, (os.cpu_count() or 2) - 2)))
+    nproc = nproc or min(len(jobs), max(1, min(10, (os.cpu_count() or 2) - 2)))
     if nproc <= 1 or os.environ.get("MP_SERIAL"):
         return [run_job(j) for j in jobs]
     import multiprocessing as mp
@@ -1030,7 +1067,14 @@ def validate(traces, rep, pid, cases, facts=None):
                     fails.append((tid, l, clause))
     finally:
         shutil.rmtree(d, ignore_errors=True)
+    first = {}
     for tid, l, clause in fails:
+        first[tid] = min(first.get(tid, l), l)
+    later = 0
+    for tid, l, clause in fails:
+        if l > first[tid]:            # the state of this point is already contaminated by the first failure
+            later += 1
+            continue
         c = dict(cases[tid])
         c["event"] = l
         c["action"] = c["ops"][l - 1]["a"] if l - 1 < len(c["ops"]) else "?"
@@ -1040,6 +1084,8 @@ def validate(traces, rep, pid, cases, facts=None):
         c["perfect_plasticity"] = bool(f.get("perfect_plasticity", False))
         c["rate_sensitive"] = bool(f.get("rate_sensitive", False))
         rep.fail(clause, c)
+    if later:
+        rep.coverage["failures_after_the_first_failing_event_of_a_trace_not_reported"] = later
     return fails
 
 
@@ -1057,7 +1103,7 @@ def merge_stats(rep, results):
                 else:
                     tot[k] = tot.get(k, 0) + v
     rep.coverage["nontrivial"] = tot
-    rep.coverage["largest_observed_fraction_of_allowance"] = {k: float("%.3g" % v) for k, v in sorted(mx.items())}
+    rep.coverage["largest_fraction_of_allowance_used_by_passing_evaluations"] = {k: float("%.3g" % v) for k, v in sorted(mx.items())}
     return tot, mx
 
 
@@ -1070,7 +1116,7 @@ def assumptions(pid):
          "energy / stress class ids are assigned relative to the previous register value (equal id <=> within the "
          "allowance of the value last observed); eqps ranks are dense ranks under exact float comparison",
          "material parameters traced through jax.jit (the library builds its closures from tracers); mode 'single' "
-         "uses Python floats and no jit"]
+         "builds the model from Python floats and jits each model function separately, as the upstream tests do"]
     return a
 
 
@@ -1095,7 +1141,7 @@ def assign(behs_by_kind, plan, rng):
     return jobs, cases
 
 
-def shares(targets, n_sim, n_ex_extra=0):
+def shares(targets, n_sim, n_ex_extra=0, cap_ex=None):
     """Every exhaustive sequence goes to exactly one target of its kind (round robin after a seeded shuffle);
     every target also gets n_sim random walks (and n_ex_extra further exhaustive sequences)."""
     by_kind = {}
@@ -1105,13 +1151,16 @@ def shares(targets, n_sim, n_ex_extra=0):
     for kind, ts in by_kind.items():
         K = len(ts)
         for k, (variant, mode) in enumerate(ts):
-            def pick(behs, rng, k=k, K=K):
+            def pick(behs, rng, k=k, K=K, kind=kind):
                 ex = list(behs["ex"])
                 random.Random(common.seed() + 101).shuffle(ex)
                 sim = list(behs["sim"])
                 rng.shuffle(sim)
                 more = rng.sample(ex, min(n_ex_extra, len(ex))) if n_ex_extra else []
-                return ex[k::K] + more + sim[:n_sim]
+                mine = ex[k::K]
+                if cap_ex and kind in cap_ex:          # (C08 uses the history kinds only to reach evolved states)
+                    mine = mine[:cap_ex[kind]]
+                return mine + more + sim[:n_sim]
             plan.append((variant, mode, pick))
     return plan
 
